@@ -229,3 +229,14 @@ def update_params_in_place(dst, src):
         else:
             dst[k] = v
     return dst
+
+
+def scaled_utility_desc(desc, U):
+    """The same model with utility measured in other units (utility multiplied by U > 0)."""
+    import copy
+
+    d = copy.deepcopy(desc)
+    for f in d["functions"]:
+        if f[0] == "utility":
+            f[2] = f"{U!r} * ({f[2]})"
+    return d
